@@ -1063,6 +1063,37 @@ def sc_c_reentry_callbacks(r):
 """ + "".join(parts), inner=inner, k=r.randint(1, 6), n=r.randint(3, 9), u=r.randrange(1 << 30))]
 
 
+def sc_callbacks_mutate_subject(r):
+    """a buffer given as the text of peg/match, peg/replace-all, string/replace(-all) is grown by the
+    callback the C code calls back into: the C side must not go on reading the storage the buffer
+    had before (findings 75, 76: use after free; the results are those of the text as it was at the call)"""
+    which = r.sample(["peg", "pegrep", "replace", "replace1"], r.randint(2, 4))
+    grow = r.choice([100, 5000, 100000])
+    pad = r.randint(8, 80)
+    parts = []
+    if "peg" in which:
+        parts.append(r"""
+(def b1 (buffer "ab" (string/repeat "." $pad)))
+(def g1 (peg/compile ~(* (cmt (<- 1) ,(fn [x] (grow b1) x)) (<- 5))))
+(emit "peg" (peg/match g1 b1))""")
+    if "pegrep" in which:
+        parts.append(r"""
+(def b2 (buffer "a12b345c6" (string/repeat "-" $pad)))
+(emit "pegrep" (string/slice (peg/replace-all ~(capture (some (range "09"))) (fn [whole cap] (grow b2) (string "<" cap ">")) b2) 0 24))""")
+    if "replace" in which:
+        parts.append(r"""
+(def b3 (buffer "aXbXcXd" (string/repeat "." $pad)))
+(emit "replace" (string/slice (string/replace-all "X" (fn [m] (grow b3) "y") b3) 0 12))""")
+    if "replace1" in which:
+        parts.append(r"""
+(def b4 (buffer "qqXrr" (string/repeat "." $pad)))
+(emit "replace1" (string/slice (string/replace "X" (fn [m] (grow b4) (churn 1) "yy") b4) 0 10))""")
+    return [T(r"""
+(def keep-bufs @[])
+(defn grow [b] (buffer/push b (string/repeat "z" $grow)) (for i 0 $nk (array/push keep-bufs (buffer/new-filled $pad 0x41))) (churn $k) nil)
+""" + "".join(parts), grow=grow, pad=pad, nk=r.randint(5, 60), k=r.randint(1, 4))]
+
+
 def sc_symbol_collisions(r):
     """thousands of interned symbols / keywords, live ones interleaved with ones that die: the cache's probe chains
     run over tombstones left by the sweep and entries moved forward over them; every live name must still
@@ -1138,6 +1169,7 @@ def sc_duplex_stream_two_fibers(r):
 
 
 SCENARIOS = {
+    "callbacks_mutate_subject": sc_callbacks_mutate_subject,
     "symbol_collisions": sc_symbol_collisions,
     "duplex_stream_two_fibers": sc_duplex_stream_two_fibers,
     "c_reentry_callbacks": sc_c_reentry_callbacks,
